@@ -189,7 +189,7 @@ func metaShape(r *core.Rng) []byte {
 }
 
 func cmtBody(r *core.Rng) []byte {
-	if r.Chance(1, 3) { // a real directory, so that a box that is skipped or mis-framed shows in the values
+	if r.Chance(1, 2) { // a real directory, so that a box that is skipped or mis-framed shows in the values
 		t, _, _ := SynthPayload(r, r.Bool(), 1)
 		return t
 	}
@@ -287,7 +287,7 @@ func BMFFShape(r *core.Rng) ([]byte, string) {
 	case 1:
 		out = Ftyp("crx ", 1, "crx ", "isom").Serialise(nil)
 		moov := canonUUIDShape(r)
-		if r.Chance(1, 3) {
+		if r.Chance(1, 2) {
 			// an opaque box in front of the metadata box claims more than it holds (a little: into
 			// its sibling; a lot: beyond moov)
 			ob := rawBox(r.PickStr("free", "mvhd", "abcd", "skip"), r.Bytes(r.Range(0, 24)))
